@@ -170,7 +170,7 @@ def make_sized_backend(sizes, perms=None):
     return SizedMemory
 
 
-async def _e2e(loop, entries, now, backend, listonly, tmp, result):
+async def _e2e(loop, entries, now, backend, listonly, tmp, result, hist=0):
     harness.set_wall_clock(now)
     sizes = {}
     if backend == "mem":
@@ -217,9 +217,16 @@ async def _e2e(loop, entries, now, backend, listonly, tmp, result):
             truth[name] = ("dir" if isdir else "file", st_.st_size, mtime)
     c = aioftp.Client(path_io_factory=aioftp.MemoryPathIO)
     await c.connect(HOST, PORT)
+    if hist & 1:
+        # history of the client object: a listing asked for before the login is refused (503); what the client reports
+        # afterwards must not depend on it
+        try:
+            await c.list("d")
+        except aioftp.StatusCodeError:
+            result["refused_before_login"] += 1
     await c.login()
     try:
-        modes = [("auto", None)] + ([] if listonly else [("LIST", "LIST")])
+        modes = [("auto", None)] + ([] if listonly else [("LIST", "LIST")]) + ([("auto", None)] if hist & 2 else [])
         for label, raw in modes:
             is_list = listonly or raw == "LIST"
             tag = "list" if is_list else "mlsd"
@@ -289,19 +296,19 @@ async def _e2e(loop, entries, now, backend, listonly, tmp, result):
 
 
 def check_e2e(ctx, case, zone):
-    entries, now, backend, listonly, _ = case
+    entries, now, backend, listonly, hist = case
     now = resolve_now(now)
     result = collections.Counter()
     try:
         with harness.TempDirs() as td:
             tmp = td.new() if backend != "mem" else None
-            simnet.run(lambda loop: _e2e(loop, entries, now, backend, listonly, tmp, result))
+            simnet.run(lambda loop: _e2e(loop, entries, now, backend, listonly, tmp, result, hist))
     finally:
         nt = len(entries) >= 3 or any(nontrivial_time(max(1, now - e[3]), now) for e in entries)
         ctx.count([zone, case], nt, sample=dict(zone=zone, backend=backend, list_only_server=listonly,
                                                 now=time.strftime("%Y-%m-%d %H:%M", time.localtime(now)),
                                                 entries=[(e[0], "dir" if e[1] else "file", e[2], e[3]) for e in entries[:6]]),
-                  classes=["zone_" + zone, "be_" + backend, "listonly" if listonly else "mlsd+list", "entries_%d" % min(len(entries), 5)]
+                  classes=["zone_" + zone, "be_" + backend, "listonly" if listonly else "mlsd+list", "entries_%d" % min(len(entries), 5), "client_history_%d" % hist]
                   + (["big_size"] if any(e[2] > 1 << 32 for e in entries) else [])
                   + (["leading_space_name"] if any(e[0][0].isspace() for e in entries) else []))
         ctx.classes["excluded_window_entries"] += result["excluded_window"]
